@@ -200,7 +200,7 @@ type ChanReport struct {
 	ReadsHex  string            `json:"reads_hex,omitempty"`
 	Events    []string          `json:"events,omitempty"`
 	Rest      []byte            `json:"rest,omitempty"`
-	Stream    []byte            `json:"-"`
+	Stream    []byte            `json:"stream,omitempty"`
 	ElapsedMS int64             `json:"elapsed_ms"`
 }
 
